@@ -47,8 +47,11 @@ PROPS = {
         corr=CORR_DEC + ["corr.enc", "corr.has_ty"], oracle=["oracle.C04"]),
     "C05": dict(
         runs=lambda t: [catalogue(t, "enc,dec", values=(12, 40), nbytes=(1200, 6000), exhaustive=(1, 1)),
-                        special(t, "helpers,builder,listvar", count=(40000, 400000)), reached(t, (800, 20000))],
-        corr=["corr.dec.class", "corr.builder", "corr.listvar", "corr.read_offset", "corr.split_union", "corr.const", "corr.bf"],
+                        special(t, "helpers,builder,listvar", count=(40000, 400000)), reached(t, (800, 20000)),
+                        # bitfield capacities near 2^32, 2^63 and 2^64: metadata and short inputs only
+                        dict(args=["--ops", "bfbytes", "--tag", "hugecap", "--count", str(T(t, 64, 1024))], shards=1)],
+        corr=["corr.dec.class", "corr.builder", "corr.listvar", "corr.read_offset", "corr.split_union", "corr.const", "corr.bf",
+              "corr.bf.bytes", "corr.meta"],
         oracle=["oracle.C05", "abort", "deep-abort"],
         deep=[(200, True), (20000, False)]),
     "C06": dict(
@@ -107,7 +110,7 @@ PROPS = {
         runs=lambda t: [special(t, "bfbytes,bfwithlen", count=(3000, 60000), extra=["--exhaustive", "1"]),
                         dict(args=["--ops", "bfbytes", "--count", "16", "--exhaustive", "2"]) if t == "thorough" else
                         dict(args=["--ops", "bfwithlen", "--count", "64"], shards=1), reached(t)],
-        corr=["corr.bf.bytes", "corr.bf.withlen", "corr.const", "corr.bf", "corr.enc"], oracle=["oracle.C14", "abort"]),
+        corr=["corr.bf.bytes", "corr.bf.withlen", "corr.const", "corr.bf", "corr.enc", "corr.meta"], oracle=["oracle.C14", "abort"]),
     "C17": dict(
         runs=lambda t: [catalogue(t, "meta,enc,dec,app", values=(16, 120), nbytes=(150, 1500), exhaustive=(1, 1), tag="legacy")],
         corr=CORR_ENC + CORR_DEC + ["corr.meta", "corr.bytes_len", "corr.append", "corr.as_bytes"],
